@@ -60,8 +60,12 @@ def run(ctx):
     for name, gen in (("tuple", nest_tuple), ("object", nest_obj), ("array_of_objects", nest_arrobj)):
         ds_ = [doc_str(gen(d)) for d in (depths if name == "tuple" else depths[:12])]
         for op in ("from_str", "from_value"):
-            out = ctx.impl(["allocs\t%s\t%s" % (op, d) for d in ds_])
-            fam["%s/%s/depth" % (op, name)] = [int(x.split()[1]) for x in out]
+            series = []
+            for d in ds_:          # one depth at a time: stop as soon as the count explodes (hang guard)
+                series.append(int(ctx.impl(["allocs\t%s\t%s" % (op, d)])[0].split()[1]))
+                if series[-1] > 300000:
+                    break
+            fam["%s/%s/depth" % (op, name)] = series
     widths = [10, 100, 1000, 10000] if ctx.tier != "quick" else [10, 100, 1000, 4000]
     for name, gen in (("array", lambda w: ['1'] * (w - 1) + ['s']), ("object", lambda w: tuple(("k%d" % i, '1') for i in range(w))),
                       ("array_of_objects", lambda w: [(("a", '1'), ("k%d" % (i % 7), 's')) for i in range(w)])):
